@@ -1363,6 +1363,51 @@ def switch_bbox_epsg_axis_order""", 'C01.a'),
     M('M-C15h-revert-D18', 'mapproxy/util/async_.py', """        if len(args) == 1:
             return self._single_call(func, args[0], use_result_objects)""", """        if len(args[0]) == 1:
             return self._single_call(func, args[0], use_result_objects)""", 'C15.h', 'revert of fix D18'),
+    M('M-C17h-revert-D19-compare', 'mapproxy/source/wms.py', """        if self.res_range != other.res_range:
+            return False
+
+""", "", 'C17.h', 'revert of fix D19 (comparison)'),
+    M('M-C17h-revert-D19-merged', 'mapproxy/source/wms.py', """                         res_range=self.res_range,
+""", """                         res_range=None,
+""", 'C17.h', 'revert of fix D19 (merged source)'),
+    M('M-C17h-drop-coverage', 'mapproxy/source/wms.py', """                         coverage=self.coverage,
+                         fwd_req_params=self.fwd_req_params,""", """                         fwd_req_params=self.fwd_req_params,""", 'C17.h', 'merged source loses the coverage'),
+    E('E-C17h-flipped-compare', 'mapproxy/source/wms.py', """        if self.res_range != other.res_range:
+            return False
+""", """        if not (other.res_range == self.res_range):
+            return False
+""", 'comparison written the other way'),
+    M('M-C09i-revert-D20', 'mapproxy/config/loader.py', """                lock_dir = self.lock_dir()
+
+                global_directory_permissions = self.context.globals.get_value('directory_permissions', self.conf,
+                                                                         global_key='cache.directory_permissions')
+                if global_directory_permissions:
+                    log.info(f'Using global directory permission configuration for tile locks:'
+                             f' {global_directory_permissions}')
+
+                global_file_permissions = self.context.globals.get_value('file_permissions', self.conf,
+                                                                         global_key='cache.file_permissions')
+                if global_file_permissions:
+                    log.info(f'Using global file permission configuration for tile locks:'
+                             f' {global_file_permissions}')
+
+                lock_timeout""", """                lock_dir = self.context.globals.get_value('cache.tile_lock_dir')
+                if not lock_dir:
+                    lock_dir = os.path.join(self.cache_dir(), 'tile_locks')
+
+                global_directory_permissions = self.context.globals.get_value('directory_permissions', self.conf,
+                                                                         global_key='cache.directory_permissions')
+                if global_directory_permissions:
+                    log.info(f'Using global directory permission configuration for tile locks:'
+                             f' {global_directory_permissions}')
+
+                global_file_permissions = self.context.globals.get_value('file_permissions', self.conf,
+                                                                         global_key='cache.file_permissions')
+                if global_file_permissions:
+                    log.info(f'Using global file permission configuration for tile locks:'
+                             f' {global_file_permissions}')
+
+                lock_timeout""", 'C09.i', 'revert of fix D20'),
     E('E-C15h-swapped-compare', 'mapproxy/util/async_.py', """        if len(args) == 1:
             return self._single_call(func, args[0], use_result_objects)""", """        if 1 == len(args):
             return self._single_call(func, args[0], use_result_objects)""", 'operands swapped'),
